@@ -135,7 +135,7 @@ PROPS = {
                 "own namespace with the victim's uuid; subject or issuer rewritten after signing), node restart; after each operation every published credential is verified on the node. "
                 "Status-list world: each run: 2-4 phases of 2-4 concurrent tasks issuing credentials with status-list entries, revoking, fetching the served lists and verifying on "
                 "the other node; between phases the clock jumps (16 min cache age, 19 h re-issue margin, 25 h expiry) or the issuer becomes unreachable; one third of "
-                "the runs start a few slots before the page end, one third inject HTTP faults on list download. Non-trivial: more than two credentials and at least "
+                "the runs start a few slots before the page end, one third inject HTTP faults on list download, one quarter have a hostile list server that answers a verification asking for one list with the first version ever served of another, validly signed list (http.list-swapped). Non-trivial: more than two credentials and at least "
                 "one non-FIFO decision or fault; distinct = distinct decision hashes.",
         "invariants": ["C11.unique-slot", "C11.served", "C11.effective", "C11.issuer-only", "C11.permanent"],
         "assumptions": ["network revocations: the honest issuers and the attacker are played by the workload with its own keys (the node under test is the verifier); a revocation back-dated to a time at which a since-removed key was valid is not generated",
